@@ -197,6 +197,7 @@ struct C21 : Driver {
     r.in_frag = sim::Frag(); r.out_frag = sim::Frag();
     if (rng.below(3) == 0) { r.in_frag.mode = sim::FR_FIXED; r.in_frag.param = 1000 + (uint32_t)rng.below(50000); }
     r.ign_pipe = rng.below(2); r.ign_xfsz = rng.below(2);
+    if (rng.below(3) == 0) r.argv.push_back(rng.below(2) ? "-v" : "--verbose");     // informational messages and the progress display take the stderr lock too (seeded change C21-4)
     r.sched.spurious = 0;
     c.runs.push_back(r);
     return c;
